@@ -107,7 +107,11 @@ func hostileService() ServiceSpec {
 	return svc
 }
 
-var hostileOptSets = [][]string{{}, {"stats"}, {"unaryInt", "streamInt"}, {"unaryInt", "streamInt", "stats"}}
+// (the last two are muxes on which nothing has been registered yet - the window between NewMux and the first
+// RegisterService / RegisterConn; only the free-form requests run on them)
+var hostileOptSets = [][]string{{}, {"stats"}, {"unaryInt", "streamInt"}, {"unaryInt", "streamInt", "stats"}, {"empty"}, {"empty", "unaryInt", "streamInt", "stats"}}
+
+const hostileRegistered = 4 // option sets with the service registered
 
 type hostileEnv struct {
 	mux     *larking.Mux
@@ -179,8 +183,10 @@ func newHostileEnv(opts []string) (*hostileEnv, error) {
 		}
 		return nil
 	}
-	if err := larking.VerifRegisterService(mux, MakeServiceDesc(sds[0], un, st), struct{}{}); err != nil {
-		return nil, err
+	if !hasOpt(e.c, "empty") {
+		if err := larking.VerifRegisterService(mux, MakeServiceDesc(sds[0], un, st), struct{}{}); err != nil {
+			return nil, err
+		}
 	}
 	he.mux = mux
 	return he, nil
@@ -232,6 +238,24 @@ func hostileRequests(r *rng, n int) []hreq {
 	for _, q := range queries {
 		add(hreq{entry: "http", desc: "query", method: "GET", path: "/h/typed/1/true/RED", query: q})
 		add(hreq{entry: "http", desc: "query", method: "POST", path: "/vs.H/Unary", query: q, body: js, hdr: map[string]string{"Content-Type": "application/json"}})
+	}
+	// --- negotiation headers, systematically: every element shape x parameter shape, alone and in lists, on a request
+	// that succeeds, on one that fails (error replies are negotiated too) and on an upload
+	var elems []string
+	for _, t := range []string{"application/json", "*/*", "application/*", "gzip", "identity", "text/html", "", "a", "/"} {
+		for _, pm := range []string{"", ";", "; ", ";q", ";q=", ";q=1", ";Q=0.5", ";q=0", ";q=1;", ";x", ";=", "; q = 1", ";q=1;q", ";;", ";q=\xff", ";qq"} {
+			elems = append(elems, t+pm)
+		}
+	}
+	for i, e := range elems {
+		vals := []string{e, "," + e, e + ", " + elems[(i*7+3)%len(elems)]}
+		for _, v := range vals {
+			for _, hn := range []string{"Accept", "Accept-Encoding"} {
+				add(hreq{entry: "http", desc: "negotiate", method: "POST", path: "/t/unary", body: js, hdr: map[string]string{"Content-Type": "application/json", hn: v}})
+			}
+			add(hreq{entry: "http", desc: "negotiate", method: "GET", path: "/h/typed/x/true/RED", hdr: map[string]string{"Accept": v, "Accept-Encoding": vals[0]}})
+			add(hreq{entry: "http", desc: "negotiate", method: "POST", path: "/h/bf/x", body: js, hdr: map[string]string{"Content-Type": "image/png", "Accept": v}})
+		}
 	}
 	// --- transcoding: bodies and headers
 	cts := []string{"application/json", "application/protobuf", "application/octet-stream", "", "text/plain", "application/json; charset=utf-8", "google.api.HttpBody", "application/grpc", "application/grpc-web", "\x00", strings.Repeat("a", 300)}
@@ -454,7 +478,7 @@ func hostileMain(args []string) error {
 				ec := ec
 				h := concretiseEntry(ec, r)
 				id++
-				j := sideOf(id, "Entry", h, r.Intn(len(envs)))
+				j := sideOf(id, "Entry", h, r.Intn(hostileRegistered))
 				j.Rq, j.Want = &ec.Rq, &ec.Resp
 				jobs = append(jobs, j)
 			}
@@ -475,7 +499,7 @@ func hostileMain(args []string) error {
 			paths := []string{"/h/ws/x", "/h/ws/x", "/h/ws/x", "/h/ws/x?s=y", "/h/ws/x?rn.s=1", "/h/ws/x?i=zz", "/h/ws/", "/h/ws/a/b", "/vs.H/Ws", "/h/typed/1/true/RED"}
 			for k, scr := range wsScripts(r, c.n/8+130) {
 				id++
-				j := HostileReq{Case: id, Kind: "Ws", Entry: "ws", Path: paths[0], Hdr: hdrs[0], Opts: k % len(envs), WsWait: k%5 == 4}
+				j := HostileReq{Case: id, Kind: "Ws", Entry: "ws", Path: paths[0], Hdr: hdrs[0], Opts: k % hostileRegistered, WsWait: k%5 == 4}
 				if k >= 130 {
 					j.Path, j.Hdr = paths[r.Intn(len(paths))], hdrs[r.Intn(len(hdrs))]
 				}
